@@ -12,13 +12,13 @@
    P_CliPrint.v, P_CliFilterSkip.v, re-exported under the same names): the overwrite
    policy, options i and w=DIR, the p command, the filter loop.  MacOS members are covered by
    mac_run_content / mac_extract_content and the forest theorem extract_archive_below_any.
+   Wildcard-selected extraction of archives with directory entries: extract_archive_selected_tree;
+   p for MacOS members and under patterns: print_archive_output_mac (both at the end of the file).
    Not proved (decided on every run by the reference oracle on the real tool and by the
-   correspondence): the wildcard-selected extraction of archives WITH directory
-   entries (proved for archives of top-level files and links: extract_archive_selected_flat),
-   creation of a missing DIR spelled with a trailing '/', p for MacOS members. *)
+   correspondence): creation of a missing DIR spelled with a trailing '/'. *)
 From Lhasa Require Import Base Generated Header Fs FsRun Glob Reader CliFilter CliExtract CliMain InputStream ListOut P_ListOut P_FsExtract P_CliExtract P_CliTree.
 From Lhasa Require Properties_E2E.
-From Lhasa Require P_CliOverwrite P_CliTreeGen P_CliFlat P_CliWdir P_CliPrint P_CliFilterSkip P_MacContent P_MacExtract P_CliTreeAny P_CliWdirN P_CliTreeSlash P_CliSelectFlat.
+From Lhasa Require P_CliOverwrite P_CliTreeGen P_CliFlat P_CliWdir P_CliPrint P_CliFilterSkip P_MacContent P_MacExtract P_CliTreeAny P_CliWdirN P_CliTreeSlash P_CliSelectFlat P_CliSelectTree P_CliPrintMac.
 Local Open Scope N_scope.
 
 (* '*' matches any run of bytes, '?' exactly one, any other byte itself (case-sensitive) *)
@@ -210,6 +210,36 @@ Proof. exact P_CliTreeSlash.extract_archive_below_slash. Qed.
 Theorem extract_archive_selected_flat : ltac:(let t := type of P_CliSelectFlat.extract_archive_selected_flat in exact t).
 Proof. exact P_CliSelectFlat.extract_archive_selected_flat. Qed.
 
+(* wildcard selection together with extraction for archives WITH directory entries
+   (extract_archive_selected_tree): the target directory holds its old entries followed by
+   exactly [sbuilds f u its]: every selected file and safe link with its contents, mode and time;
+   a selected directory entry with its recorded mode and time (sbuilds_exactly, first case);
+   a directory entry that is not selected but has a selected member below it: made by
+   make_parent_directories with mode 0755 & ~umask and the time of its creation, the recorded
+   mode and time are not applied (second case); nothing for a directory without selected
+   members (sbuilds_nil); without patterns it is the tree of the forest theorems (sbuilds_nofilter).
+   The members no pattern matches are passed over undecoded. *)
+Theorem extract_archive_selected_tree : ltac:(let t := type of P_CliSelectTree.extract_archive_selected_tree in exact t).
+Proof. exact P_CliSelectTree.extract_archive_selected_tree. Qed.
+Theorem sbuilds_exactly : ltac:(let t := type of P_CliSelectTree.sbuilds_exactly in exact t).
+Proof. exact P_CliSelectTree.sbuilds_exactly. Qed.
+Theorem sbuilds_nil : ltac:(let t := type of P_CliSelectTree.sbuilds_nil in exact t).
+Proof. exact P_CliSelectTree.sbuilds_nil. Qed.
+Theorem sbuilds_nofilter : ltac:(let t := type of P_CliSelectTree.sbuilds_nofilter in exact t).
+Proof. exact P_CliSelectTree.sbuilds_nofilter. Qed.
+(* every entry of sbuilds is found at its name in the resulting tree *)
+Theorem selected_items_are_there : ltac:(let t := type of P_CliSelectTree.selected_top in exact t).
+Proof. exact P_CliSelectTree.selected_top. Qed.
+
+(* p for MacOS members and under patterns: standard output gains, for every selected member in
+   archive order, banner and bytes; the bytes of a selected MacOS member whose inner stream has
+   the recorded length and CRC are firstn (h_length h) (mac_out h ibs): the content function of
+   mac_extract_content (mac_print_content: one member, whatever the reads return) *)
+Theorem mac_print_content : ltac:(let t := type of P_CliPrintMac.mac_print_content in exact t).
+Proof. exact P_CliPrintMac.mac_print_content. Qed.
+Theorem print_archive_output_mac : ltac:(let t := type of P_CliPrintMac.print_archive_output_mac in exact t).
+Proof. exact P_CliPrintMac.print_archive_output_mac. Qed.
+
 Print Assumptions glob_correct.
 Print Assumptions wildcards_select_exactly.
 Print Assumptions extraction_instance.
@@ -239,3 +269,10 @@ Print Assumptions e2e_cli_run_found.
 Print Assumptions extract_archive_wdir_created_n.
 Print Assumptions extract_archive_below_slash.
 Print Assumptions extract_archive_selected_flat.
+Print Assumptions extract_archive_selected_tree.
+Print Assumptions sbuilds_exactly.
+Print Assumptions sbuilds_nil.
+Print Assumptions sbuilds_nofilter.
+Print Assumptions selected_items_are_there.
+Print Assumptions mac_print_content.
+Print Assumptions print_archive_output_mac.
